@@ -199,3 +199,144 @@ func TestC15FinishBusy(t *testing.T) {
 		}
 	}
 }
+
+// ---- an operation that follows one whose context was already over ----
+
+type c15AfterCase struct {
+	Kind  string `json:"kind"`  // inproc | tcp
+	First string `json:"first"` // the operation called with a dead context
+	Then  string `json:"then"`  // the operation called next, with a 300 ms deadline, against a peer that is silent
+	End   string `json:"end"`   // how the first context was over: cancelled | expired
+}
+
+func c15ChannelOp(cc *lime.ClientChannel, op string, id string) func(ctx context.Context) error {
+	switch op {
+	case "send-notification":
+		return func(ctx context.Context) error {
+			n := &lime.Notification{Event: lime.NotificationEventReceived}
+			n.ID = id
+			return cc.SendNotification(ctx, n)
+		}
+	case "send-request":
+		return func(ctx context.Context) error {
+			r := &lime.RequestCommand{}
+			r.ID, r.Method = id, lime.CommandMethodGet
+			r.SetURIString("/x")
+			return cc.SendRequestCommand(ctx, r)
+		}
+	case "process-command":
+		return func(ctx context.Context) error {
+			r := &lime.RequestCommand{}
+			r.ID, r.Method = id, lime.CommandMethodGet
+			r.SetURIString("/x")
+			_, err := cc.ProcessCommand(ctx, r)
+			return err
+		}
+	case "finish":
+		return func(ctx context.Context) error { _, err := cc.FinishSession(ctx); return err }
+	}
+	return func(ctx context.Context) error { return cc.SendMessage(ctx, c13Message(id)) }
+}
+
+func runC15After(c *c15AfterCase) *c15BusyObs {
+	obs := &c15BusyObs{}
+	var ct, st lime.Transport
+	cleanup := func() {}
+	if c.Kind == "inproc" {
+		ct, st = lime.VerifNewInProcessTransportPair("c15after", 64)
+	} else {
+		p, err := NewRealPair("tcp")
+		if err != nil {
+			obs.Skip = err.Error()
+			return obs
+		}
+		ct, st = p.Client, p.Server
+		cleanup = p.Close
+	}
+	defer cleanup()
+	cc := lime.NewClientChannel(ct, 4)
+	sc := lime.NewServerChannel(st, 4, srvNode, fixedSid)
+	ectx, ecancel := context.WithTimeout(context.Background(), 10*time.Second)
+	done := make(chan error, 1)
+	go func() {
+		done <- sc.EstablishSession(ectx, []lime.SessionCompression{lime.SessionCompressionNone}, []lime.SessionEncryption{lime.SessionEncryptionNone},
+			[]lime.AuthenticationScheme{lime.AuthenticationSchemeGuest},
+			func(context.Context, lime.Identity, lime.Authentication) (*lime.AuthenticationResult, error) {
+				return lime.MemberAuthenticationResult(), nil
+			}, func(_ context.Context, n lime.Node, _ *lime.ServerChannel) (lime.Node, error) { return n, nil })
+	}()
+	_, cerr := cc.EstablishSession(ectx, lime.NoneCompressionSelector, lime.NoneEncryptionSelector, lime.Identity{Name: "alice", Domain: "cli.example"}, lime.GuestAuthenticator, "home")
+	serr := <-done
+	ecancel()
+	if cerr != nil || serr != nil {
+		obs.Skip = fmt.Sprintf("establish: %v / %v", cerr, serr)
+		return obs
+	}
+	// the peer (the server channel) is silent: nobody answers commands or the finishing envelope
+	dead, cancel := context.WithCancel(context.Background())
+	if c.End == "expired" {
+		cancel()
+		dead, cancel = context.WithDeadline(context.Background(), time.Now().Add(-time.Second))
+	}
+	cancel()
+	_ = c15ChannelOp(cc, c.First, "first")(dead)
+	ctx, cancel2 := context.WithTimeout(context.Background(), 300*time.Millisecond)
+	ret := make(chan error, 1)
+	t0 := time.Now()
+	go func() { ret <- c15ChannelOp(cc, c.Then, "then")(ctx) }()
+	bound := 300*time.Millisecond + time.Second
+	if c.Kind == "tcp" {
+		bound += 5 * time.Second
+	}
+	select {
+	case err := <-ret:
+		obs.Returned = true
+		if err != nil {
+			obs.Err = err.Error()
+		}
+	case <-time.After(bound):
+	}
+	obs.LatencyMs = time.Since(t0).Milliseconds()
+	cancel2()
+	// the connection first (the channels' receivers end at once), then the channels
+	cleanup()
+	cleanup = func() {}
+	if obs.Returned {
+		go func() { _ = cc.Close() }()
+		go func() { _ = sc.Close() }()
+	}
+	return obs
+}
+
+func TestC15AfterDeadContext(t *testing.T) {
+	rec := NewRecorder("C15", "TestC15AfterDeadContext")
+	defer rec.Finish(t)
+	sh, nsh := Shard()
+	idx := 0
+	ops := []string{"send-message", "send-notification", "send-request", "process-command", "finish"}
+	for _, kind := range []string{"inproc", "tcp"} {
+		for _, first := range ops[:4] {
+			for _, then := range ops {
+				for _, end := range []string{"cancelled", "expired"} {
+					idx++
+					if idx%nsh != sh {
+						continue
+					}
+					c := &c15AfterCase{Kind: kind, First: first, Then: then, End: end}
+					rec.Journal(c)
+					obs := runC15After(c)
+					o := &Outcome{NonTrivial: true}
+					o.Class("after-an-operation-with-a-dead-context")
+					o.Class("kind=" + kind)
+					if obs.Skip != "" {
+						o.Class("skipped")
+					} else if !obs.Returned {
+						o.Fail("C15/never-returned/"+then+"/"+kind+"/after-dead-context", "%s with a 300 ms deadline, called after a %s whose context was already %s, had not returned %d ms later", then, first, end, obs.LatencyMs)
+					}
+					rec.Eval(c, o)
+				}
+			}
+		}
+	}
+	rec.Note("exhaustive", "true")
+}
